@@ -6,10 +6,31 @@ use serde::{Deserialize, Serialize};
 
 /// The key alphabet: six letters plus the empty key and a non-ASCII key. `a` and `b` are also the
 /// identifiers the macro call sites capture, so macro-captured and base props collide often.
-pub const KEYS: [&str; 8] = ["a", "b", "c", "d", "e", "f", "", "é"];
+///
+/// Indices 8.. are the TYPED keys (never produced by the general key strategy): the well-known `lvl` and
+/// `evt_kind`, a numeric key `n` and a boolean key `flag`. Each has its own value set (main.rs) in which
+/// "casts to the pulled type" is unambiguous from the documentation.
+pub const KEYS: [&str; 12] = ["a", "b", "c", "d", "e", "f", "", "é", "lvl", "evt_kind", "n", "flag"];
+pub const GENERAL_KEYS: u8 = 8;
+pub const KEY_LVL: u8 = 8;
+pub const KEY_KIND: u8 = 9;
+pub const KEY_N: u8 = 10;
+pub const KEY_FLAG: u8 = 11;
+
+/// The typed lookups every recording leaf performs and the typed predicates refer to:
+/// slot 0 = `pull::<Level>("lvl")`, 1 = `pull::<Kind>("evt_kind")`, 2 = `pull::<i64>("n")`,
+/// 3 = `pull::<bool>("flag")`.
+pub const SLOT_KEYS: [u8; 4] = [KEY_LVL, KEY_KIND, KEY_N, KEY_FLAG];
+pub const LEVEL_NAMES: [&str; 4] = ["debug", "info", "warn", "error"];
+pub const KIND_NAMES: [&str; 2] = ["span", "metric"];
+pub static LEVELS: [emit::Level; 4] = [emit::Level::Debug, emit::Level::Info, emit::Level::Warn, emit::Level::Error];
+pub static KINDS: [emit::Kind; 2] = [emit::Kind::Span, emit::Kind::Metric];
 pub const SEGS: [&str; 4] = ["m0", "m1", "é", "x_9"];
 pub const TEXTS: [&str; 6] = ["", "t", " and ", "é!", "x", "0"];
-pub const STRS: [&str; 5] = ["", "x", "y", "é", "1"];
+pub const STRS: [&str; 13] = [
+    "", "x", "y", "é", "1", "error", "warn", "info", "debug", "trace", "span", "metric", "spam",
+];
+pub const GENERAL_STRS: u8 = 5;
 
 pub fn key(k: u8) -> &'static str {
     KEYS[k as usize % KEYS.len()]
@@ -20,6 +41,10 @@ pub enum Val {
     I(i64),
     S(u8),
     B(bool),
+    /// a real `emit::Level` value (index into LEVELS)
+    L(u8),
+    /// a real `emit::Kind` value (index into KINDS)
+    K(u8),
 }
 
 impl Val {
@@ -28,6 +53,8 @@ impl Val {
             Val::I(i) => i.to_string(),
             Val::S(s) => STRS[*s as usize % STRS.len()].to_string(),
             Val::B(b) => b.to_string(),
+            Val::L(l) => LEVEL_NAMES[*l as usize % 4].to_string(),
+            Val::K(k) => KIND_NAMES[*k as usize % 2].to_string(),
         }
     }
 }
@@ -38,6 +65,8 @@ impl emit::value::ToValue for Val {
             Val::I(i) => emit::Value::from(*i),
             Val::S(s) => emit::Value::from(STRS[*s as usize % STRS.len()]),
             Val::B(b) => emit::Value::from(*b),
+            Val::L(l) => emit::value::ToValue::to_value(&LEVELS[*l as usize % 4]),
+            Val::K(k) => emit::value::ToValue::to_value(&KINDS[*k as usize % 2]),
         }
     }
 }
@@ -101,6 +130,25 @@ pub enum Pred {
     ExtentIs(ExtShape),
     /// the event has an extent and its point (end) is strictly before ts
     TsBefore(Ts),
+    /// the real `emit::level::min_filter(LEVELS[min])` (`.treat_unleveled_as(LEVELS[d])` when given),
+    /// evaluated on the event exactly as the leaf receives it
+    MinLevel { min: u8, default: Option<u8> },
+    /// the real `emit::kind::is_span_filter()` (0) / `is_metric_filter()` (1)
+    KindIs(u8),
+    /// `evt.props().pull::<T, _>(key).is_some()` for typed slot 0..4 (Level@lvl, Kind@evt_kind, i64@n, bool@flag)
+    PullSome(u8),
+}
+
+impl Pred {
+    /// the typed slot this predicate looks up, if it is a typed-lookup predicate
+    pub fn typed_slot(&self) -> Option<usize> {
+        match self {
+            Pred::MinLevel { .. } => Some(0),
+            Pred::KindIs(_) => Some(1),
+            Pred::PullSome(s) => Some(*s as usize % 4),
+            _ => None,
+        }
+    }
 }
 
 #[derive(Serialize, Deserialize, Debug, Clone)]
@@ -113,6 +161,10 @@ pub enum FS {
     FnPtr(u8),
     Empty,
     Always,
+    /// the real `MinLevelFilter` as a node of its own (not recording)
+    MinLevel { min: u8, default: Option<u8> },
+    /// the real `KindFilter` as a node of its own (not recording)
+    KindIs(u8),
     And(Box<FS>, Box<FS>),
     Or(Box<FS>, Box<FS>),
     Opt(Option<Box<FS>>),
@@ -236,7 +288,7 @@ impl FS {
                 *id = *next;
                 *next += 1;
             }
-            FS::FnPtr(_) | FS::Empty | FS::Always | FS::Opt(None) => {}
+            FS::FnPtr(_) | FS::Empty | FS::Always | FS::MinLevel { .. } | FS::KindIs(_) | FS::Opt(None) => {}
             FS::And(a, b) | FS::Or(a, b) => {
                 a.number(next);
                 b.number(next);
@@ -253,7 +305,7 @@ impl FS {
 
     pub fn composites(&self) -> usize {
         match self {
-            FS::Leaf { .. } | FS::FromFn { .. } | FS::FnPtr(_) | FS::Empty | FS::Always => 0,
+            FS::Leaf { .. } | FS::FromFn { .. } | FS::FnPtr(_) | FS::Empty | FS::Always | FS::MinLevel { .. } | FS::KindIs(_) => 0,
             FS::Opt(None) => 1,
             FS::And(a, b) | FS::Or(a, b) => 1 + a.composites() + b.composites(),
             FS::Opt(Some(a))
@@ -269,7 +321,7 @@ impl FS {
     pub fn has_erased(&self) -> bool {
         match self {
             FS::Erased(_) | FS::ErasedPlain(_) => true,
-            FS::Leaf { .. } | FS::FromFn { .. } | FS::FnPtr(_) | FS::Empty | FS::Always | FS::Opt(None) => false,
+            FS::Leaf { .. } | FS::FromFn { .. } | FS::FnPtr(_) | FS::Empty | FS::Always | FS::MinLevel { .. } | FS::KindIs(_) | FS::Opt(None) => false,
             FS::And(a, b) | FS::Or(a, b) => a.has_erased() || b.has_erased(),
             FS::Opt(Some(a)) | FS::Boxed(a) | FS::Arc(a) | FS::Ref(a) | FS::AssertInternal(a) => a.has_erased(),
         }
@@ -277,7 +329,7 @@ impl FS {
 
     pub fn nodes(&self) -> usize {
         match self {
-            FS::Leaf { .. } | FS::FromFn { .. } | FS::FnPtr(_) | FS::Empty | FS::Always | FS::Opt(None) => 1,
+            FS::Leaf { .. } | FS::FromFn { .. } | FS::FnPtr(_) | FS::Empty | FS::Always | FS::MinLevel { .. } | FS::KindIs(_) | FS::Opt(None) => 1,
             FS::And(a, b) | FS::Or(a, b) => 1 + a.nodes() + b.nodes(),
             FS::Opt(Some(a))
             | FS::Boxed(a)
@@ -286,6 +338,44 @@ impl FS {
             | FS::Erased(a)
             | FS::ErasedPlain(a)
             | FS::AssertInternal(a) => 1 + a.nodes(),
+        }
+    }
+}
+
+impl FS {
+    /// the leaf's predicate as a `Pred`, for the leaves that have one
+    pub fn leaf_pred(&self) -> Option<Pred> {
+        match self {
+            FS::Leaf { pred, .. } | FS::FromFn { pred, .. } => Some(pred.clone()),
+            FS::MinLevel { min, default } => Some(Pred::MinLevel {
+                min: *min,
+                default: *default,
+            }),
+            FS::KindIs(k) => Some(Pred::KindIs(*k)),
+            _ => None,
+        }
+    }
+
+    /// Visit every leaf predicate with `generic` = the leaf is handed the event's props without any
+    /// type erasure when this tree is the root of a generic runtime's filter (the leaf is the root or a
+    /// child of a root `And`/`Or`, and is not a `from_fn` closure, which erases by construction).
+    pub fn visit_preds(&self, root: bool, under_root: bool, f: &mut impl FnMut(&Pred, bool)) {
+        match self {
+            FS::Leaf { pred, .. } => f(pred, root || under_root),
+            FS::FromFn { pred, .. } => f(pred, false),
+            FS::MinLevel { .. } | FS::KindIs(_) => f(&self.leaf_pred().unwrap(), root || under_root),
+            FS::FnPtr(_) | FS::Empty | FS::Always | FS::Opt(None) => {}
+            FS::And(a, b) | FS::Or(a, b) => {
+                a.visit_preds(false, root, f);
+                b.visit_preds(false, root, f);
+            }
+            FS::Opt(Some(a))
+            | FS::Boxed(a)
+            | FS::Arc(a)
+            | FS::Ref(a)
+            | FS::Erased(a)
+            | FS::ErasedPlain(a)
+            | FS::AssertInternal(a) => a.visit_preds(false, false, f),
         }
     }
 }
